@@ -55,12 +55,13 @@ type syncState struct {
 	notify map[*Cell]*notifySt
 	atomVC map[*Cell]vclock
 	exitVC vclock
-	locks  map[int][]string // held locks per thread (lock-order graph)
-	edges  map[string]bool
+	held   map[int][]*Cell          // locks currently held per thread, in acquisition order
+	edges  map[*Cell]map[*Cell]string // lock-order graph: held -> acquired, with the place it was first seen
+	names  map[*Cell]string
 }
 
 func newSyncState() *syncState {
-	return &syncState{mutex: map[*Cell]*mutexSt{}, rw: map[*Cell]*rwSt{}, wg: map[*Cell]*wgSt{}, notify: map[*Cell]*notifySt{}, atomVC: map[*Cell]vclock{}, locks: map[int][]string{}, edges: map[string]bool{}}
+	return &syncState{mutex: map[*Cell]*mutexSt{}, rw: map[*Cell]*rwSt{}, wg: map[*Cell]*wgSt{}, notify: map[*Cell]*notifySt{}, atomVC: map[*Cell]vclock{}, held: map[int][]*Cell{}, edges: map[*Cell]map[*Cell]string{}, names: map[*Cell]string{}}
 }
 
 func (s *syncState) onThreadExit(m *Machine, th *Thread) {
@@ -611,4 +612,63 @@ func (m *Machine) whereShort(th *Thread) string {
 		return th.top().fn.String()
 	}
 	return "?"
+}
+
+// ---------- lock-order graph (potential deadlocks on schedules where they did not bite) ----------
+
+// lockAcquired records the edges held -> c and reports a cycle as soon as one exists.
+func (m *Machine) lockAcquired(th *Thread, c *Cell) {
+	s := m.sync
+	if len(m.threads) < 2 {
+		// single-threaded phases cannot deadlock with anyone; they still define no order we rely on
+		s.held[th.id] = append(s.held[th.id], c)
+		return
+	}
+	here := m.whereShort(th)
+	if _, ok := s.names[c]; !ok {
+		s.names[c] = here
+	}
+	for _, h := range s.held[th.id] {
+		if h == c {
+			continue
+		}
+		if s.edges[h] == nil {
+			s.edges[h] = map[*Cell]string{}
+		}
+		if _, ok := s.edges[h][c]; !ok {
+			s.edges[h][c] = here
+			// a path c ->* h closes a cycle
+			if path := m.lockPath(c, h, map[*Cell]bool{}); path != "" {
+				key := "lock-order-cycle:" + here
+				m.w.reportRaceKind(m, "lockorder", key, "lock-order cycle (potential deadlock): acquired at "+here+" while holding a lock that is elsewhere acquired after it: "+path)
+			}
+		}
+	}
+	s.held[th.id] = append(s.held[th.id], c)
+}
+
+func (m *Machine) lockReleased(th *Thread, c *Cell) {
+	h := m.sync.held[th.id]
+	for i := len(h) - 1; i >= 0; i-- {
+		if h[i] == c {
+			m.sync.held[th.id] = append(h[:i:i], h[i+1:]...)
+			return
+		}
+	}
+}
+
+func (m *Machine) lockPath(from, to *Cell, seen map[*Cell]bool) string {
+	if from == to {
+		return m.sync.names[to]
+	}
+	if seen[from] {
+		return ""
+	}
+	seen[from] = true
+	for next, where := range m.sync.edges[from] {
+		if p := m.lockPath(next, to, seen); p != "" {
+			return where + " -> " + p
+		}
+	}
+	return ""
 }
